@@ -139,6 +139,28 @@ pub fn run(ctx: &mut Ctx) {
             }
         }
     }
+    // size probes: long key lists with the present keys at chosen positions
+    for n in al::size_classes(ctx.tier_thorough) {
+        if n > 300 {
+            continue;
+        }
+        if !ctx.mine() {
+            continue;
+        }
+        let d = json!({"p0": 1, "p1": null, "p2": "", "arr": [1, 2], "o": {"x": 0}});
+        let present = ["p0", "p1", "p2", "arr.0", "arr.-1", "o.x"];
+        for stride in [1usize, 2, 3, 7] {
+            ctx.edge();
+            let keys: Vec<Value> = (0..n).map(|i| if i % stride == 0 { json!(present[(i / stride) % present.len()]) } else { json!(format!("absent{}", i % 5)) }).collect();
+            let o = ctx.check("missing:size-probe", &op("missing", keys.clone()), &d);
+            ctx.check("missing:size-probe:array", &op("missing", vec![Value::Array(keys.clone())]), &d);
+            let distinct_present = keys.iter().filter(|k| present.contains(&k.as_str().unwrap_or(""))).map(|k| k.to_string()).collect::<std::collections::BTreeSet<_>>().len();
+            for t in [0usize, 1, distinct_present.saturating_sub(1), distinct_present, distinct_present + 1, n, n + 1] {
+                ctx.check("missing_some:size-probe", &json!({"missing_some": [t, keys]}), &d);
+            }
+            let _ = o;
+        }
+    }
     // data-carried lists, thresholds of other types, the array-first-operand rule
     if ctx.mine() {
         let d = json!({"a": 1, "need": ["a", "b", "c"], "n": 2, "b": null});
